@@ -226,6 +226,16 @@ def gen_fixed_layout(rng: random.Random):
         else:
             text = f"def passthru(f): return f\n\ndef build(ds):\n{ind}return ds.Where(lambda x: x > 0).Where(passthru(lambda y: y > 5))\n"
         return text, "any"
+    if r < 0.985:
+        # known finding: candidates are keyed by the NAME token before `lambda`; a lambda passed by keyword (f=lambda ...) or
+        # written inside an ordinary Python lambda is keyed under another token, and a neighbour on the line with the same
+        # argument names is recorded in its place
+        kind = rng.choice(["keyword", "inside-lambda"])
+        if kind == "keyword":
+            text = f"def build(ds):\n{ind}return ds.Select(lambda e: e + 100).Select(f=lambda e: e + 200)\n"
+        else:
+            text = f"def lazy(t): return t()\n\ndef build(ds):\n{ind}return (ds.Select(lambda e: e + 100), lazy(lambda: ds.Select(lambda e: e + 200)))[1]\n"
+        return text, "known-mispick-keyword"
     # the known mis-pick family: the passed lambda is not written directly as the argument
     kind = rng.choice(["conditional", "tuple"])
     b1, b2 = "x + 100", "x + 200"
